@@ -282,7 +282,13 @@ impl HttpError {
         status_code: ClientErrorStatusCode,
     ) -> Self {
         // TODO-polish This should probably be our own message.
-        let message = status_code.canonical_reason().unwrap().to_string();
+        //
+        // Not every 4xx status code has a canonical reason phrase (e.g., 419
+        // or 499), so fall back to a generic message instead of panicking.
+        let message = status_code
+            .canonical_reason()
+            .unwrap_or("Client Error")
+            .to_string();
         HttpError::for_client_error(error_code, status_code, message)
     }
 
